@@ -93,6 +93,9 @@ def main():
     jobs = int(os.environ.get("VERIF_JOBS", "12"))
     run = Run(prop, tier, seed)
     out_root = VERIF if core.REPO == "/repo" else os.environ.get("VERIF_OUT", "/var/tmp/verif-seed-out")
+    if os.environ.get("VERIF_ONLY"):
+        # a filtered (debugging) run must never overwrite the evidence of the registered check
+        out_root = os.environ.get("VERIF_OUT", "/var/tmp/verif-only-out")
     ev_path = os.path.join(out_root, "evidence", "%s.json" % prop)
     os.makedirs(os.path.dirname(ev_path), exist_ok=True)
     exit_code = 2
